@@ -89,7 +89,8 @@ func runC05Sync(c *core.Ctx) *core.Violation {
 	}
 	netMode := t.Choose(3)
 	pre, mid, cs := t.Choose(5), t.Choose(5), t.Choose(3)
-	c.Sample = map[string]interface{}{"sub": "sync", "rdb_len": len(rdb), "keys": len(recs), "stream_len": len(stream), "o0": o0, "newlines_before": pre, "newlines_mid": mid, "case": cs,
+	dropLink := t.Choose(4) == 3
+	c.Sample = map[string]interface{}{"drop_source_link_after": dropLink, "sub": "sync", "rdb_len": len(rdb), "keys": len(recs), "stream_len": len(stream), "o0": o0, "newlines_before": pre, "newlines_mid": mid, "case": cs,
 		"net_mode": netMode, "stream_delay": delay.String(), "releases": len(rel), "resume": resume}
 
 	var e *SyncEnv
@@ -139,13 +140,31 @@ func runC05Sync(c *core.Ctx) *core.Violation {
 		end := delay + 12*time.Second
 		e.WaitUntil(60*time.Second, 100*time.Millisecond, func() bool { return s.Now() >= end && len(e.IncrLog()) >= len(want) })
 		s.Sleep(2500 * time.Millisecond)
-		diag = e.Diag()
 		if !e.ToolAborted() {
 			rdbViol = checkRDBKeys() // inside the bubble: expiries are judged on the simulated clock
 		}
+		if dropLink && !e.ToolAborted() && len(e.Src.Links) == 1 && len(e.IncrLog()) >= len(want) {
+			// "the run id and offset announced by the source are the ones used afterwards": drop the source link once
+			// everything was delivered and look at the PSYNC of the reconnect
+			s.Fault("source_link_reset")
+			e.Src.Links[0].Conn.Reset()
+			e.WaitUntil(30*time.Second, 100*time.Millisecond, func() bool { return len(e.Src.Links) > 1 })
+			s.Sleep(500 * time.Millisecond)
+		}
+		diag = e.Diag()
 	})
 	c.Absorb(s)
 	c.Log = diag
+	if len(e.Src.Links) > 1 && rdbViol == nil {
+		l := e.Src.Links[1]
+		if l.ReqRunID != e.Src.RunID {
+			return core.Violate("announced-runid", "reconnect", "after the source link was dropped the tool asked for PSYNC %q %d; the source had announced run id %q", l.ReqRunID, l.ReqOffset, e.Src.RunID)
+		}
+		if wantOff := o0 + int64(len(stream)) + 1; l.ReqOffset != wantOff {
+			return core.Violate("announced-offset", "reconnect", "after the source link was dropped the tool asked for offset %d; announced offset %d + %d stream bytes + 1 = %d", l.ReqOffset, o0, len(stream), wantOff)
+		}
+		c.Probe("reconnect_after_handoff")
+	}
 	if e.Tool.Panicked {
 		return core.Violate("go-panic", "sync", "Go panic in the tool: %s", firstLines(e.Tool.PanicMsg, 6))
 	}
@@ -299,7 +318,7 @@ func init() {
 			"that bytes after the RDB 'stay unread' in dump mode is not observable through the public API and is not judged",
 		},
 		RealVsStub: "real: dbSync.sendPSyncCmd/runIncrementalSync, utils.SendPSyncContinue/waitRdbDump/Iocopy/OpenSyncConn, run.CmdDump, pipe, bufio, pkg/rdb loader; simulated: TCP with heavy segmentation, master/target models, clock, scheduling; dump output is a real file",
-		ProbeNames: []string{"rdb_larger_than_copy_buffer", "keepalive_newlines", "commands_in_same_write_as_rdb", "dump_trailing_bytes"},
-		FaultNames: []string{"segment_split", "latency", "short_read"},
+		ProbeNames: []string{"rdb_larger_than_copy_buffer", "keepalive_newlines", "commands_in_same_write_as_rdb", "dump_trailing_bytes", "reconnect_after_handoff"},
+		FaultNames: []string{"segment_split", "latency", "short_read", "source_link_reset"},
 	})
 }
